@@ -73,6 +73,7 @@ IMethodsStr(ms, i) ==
   ELSE (IF ExportedM(ms[i]) THEN "" ELSE "main.") \o ms[i] \o IMethodSig(ms[i])
        \o (IF i < Len(ms) THEN "; " \o IMethodsStr(ms, i + 1) ELSE "")
 
+Under(x) == IF x.k = "named" THEN x.u ELSE x
 NameOf(t)    == CASE t.k = "basic" -> t.n [] t.k = "error" -> "error" [] t.k = "named" -> TName(t)
                   [] t.k = "inst" -> "G[" \o StrQ(t.a, TRUE) \o "]" [] OTHER -> ""
 PkgPathOf(t) == IF IsDeclared(t) THEN "main" ELSE ""
@@ -195,6 +196,9 @@ OwnResult(owner, m, r) ==
     [] m = "P1" -> ToString(200 + Probe(r))
     [] m = "m0" -> ToString(300 + Probe(r))
 Panics == "PANIC"
+\* Whether dereferencing a nil pointer to a type of size zero panics is the subject of another property (mandated
+\* run-time panics), not of this one: such calls are left out of the modelled fragment.
+Unmodelled == "UNMODELLED"
 
 \* result (as text) of calling method m on value v, selected as the Go specification resolves x.m:
 \* the shallowest declaration wins, pointers are dereferenced on the way (a nil pointer there panics)
@@ -202,7 +206,8 @@ RECURSIVE CallOn(_, _, _)
 CallOn(v, m, viaPtr) ==
   LET t == v.t IN
   CASE KindOf(t) = "interface" -> IF v.nil THEN Panics ELSE CallOn(v.es[1], m, FALSE)
-    [] t.k = "ptr" -> IF v.nil THEN (IF t.e.k = "inst" /\ m = "Gp" THEN "10" ELSE Panics) ELSE CallOn(v.es[1], m, TRUE)
+    [] t.k = "ptr" -> IF v.nil THEN (IF t.e.k = "inst" /\ m = "Gp" THEN "10" ELSE IF ZeroSize(t.e) THEN Unmodelled ELSE Panics)
+                      ELSE CallOn(v.es[1], m, TRUE)
     [] t.k = "inst" -> IF m = "Gm" THEN "9" ELSE "10"
     [] OTHER ->
         IF t.k = "named" /\ (m \in SeqSet(MS[t.ms].v) \/ (viaPtr /\ m \in SeqSet(MS[t.ms].p)))
